@@ -142,6 +142,11 @@ pub fn run(ctx: &mut Ctx, _replay: Option<&[String]>) {
         // model sigma, computed independently from the property statement
         let rate = k as f64 / n as f64;
         let sigma = (0.5 / (rate * 1.0 * 10f64.powf(0.1 * ebn0 as f64))).sqrt();
+        // independence between frames / workers: with continuous noise no two frames handed to the decoders can coincide
+        let dup = {
+            let mut seen = std::collections::HashSet::new();
+            log.lock().unwrap().iter().filter(|v| !seen.insert(v.iter().map(|x| x.to_bits()).collect::<Vec<u64>>())).count()
+        };
         let mut xs: Vec<f64> = Vec::new();
         for v in log.lock().unwrap().iter() {
             for &llr in v.iter() {
@@ -156,7 +161,7 @@ pub fn run(ctx: &mut Ctx, _replay: Option<&[String]>) {
         let var = xs.iter().map(|x| (x - mean) * (x - mean)).sum::<f64>() / nn;
         let lag1 = xs.windows(2).map(|w| (w[0] - mean) * (w[1] - mean)).sum::<f64>() / (nn - 1.0);
         ctx.emit(&format!("c12 noise {} {} 1 {}", k, n, hx(ebn0 as f64)),
-            &format!("{} {} {} {} {}", hx(sigma), hx(nn), hx(mean), hx(var), hx(lag1)), true, &["noise-statistics-bpsk"]);
+            &format!("{} {} {} {} {} {}", hx(sigma), hx(nn), hx(mean), hx(var), hx(lag1), dup), true, &["noise-statistics-bpsk"]);
     }
     // (iii) the AWGN channel itself, real and complex: mean, variance, Re/Im covariance, lag-1 covariances, 4th moment (Gaussian: 3 sigma^4)
     {
